@@ -31,6 +31,7 @@ EXPLANATION = (
     "type and as superclass; (zoo) the whole generator and file creation over the model zoo. (cli) every option "
     "combination through the real argparse set-up; the API file is written before stub generation starts. Engine K: "
     "_add_to_imports composed with the index arithmetic of _create_outside_package_class for every referenced name."
+    ' (docstring_types) DocstringParser._griffe_annotation_to_api_type on a grammar of docstring type texts (members joined by |, or, comma; names, constants, subscripts, tuples, optional; default suffix; list[...] / (...) | None wrapping; three styles): no exception, an API type or None, and an answer within the time budget (non-termination is a counterexample).'
 )
 ASSUMPTIONS = [
     "mypy.build, griffe's loaders/parsers, pathlib/glob and argparse internals are outside the claim (compiled / "
